@@ -452,7 +452,17 @@ fn union_bb(groups: &[GrpS]) -> [f32; 6] {
     b
 }
 
-fn gen_root(r: &mut Rng, idx: u64, many_max: u64) -> RootSpec {
+/// Pattern letter of a list whose length is forced to a boundary size (see `BIG_SIZES`).
+fn big_tag(n: usize) -> String {
+    match n {
+        4096 => "H4096".into(),
+        4097 => "H4097".into(),
+        _ => "H>4097".into(),
+    }
+}
+
+/// `force` = (list number in the order of `names`, exact length): boundary-size cases beyond the "many" class.
+fn gen_root(r: &mut Rng, idx: u64, many_max: u64, force: Option<(usize, usize)>) -> RootSpec {
     // emptiness pattern: 0 / 1 / many per list; the first three cases are the uniform patterns
     let mut e = [0u64; 9];
     for x in e.iter_mut() {
@@ -469,15 +479,30 @@ fn gen_root(r: &mut Rng, idx: u64, many_max: u64) -> RootSpec {
         _ => r.bool(),
     };
     let names = ["tex", "mat", "grp", "por", "prf", "vis", "lit", "ddf", "dst"];
-    let mut pattern: String = names.iter().zip(e.iter()).map(|(n, x)| format!("{n}{}", ["0", "1", "m"][*x as usize])).collect::<Vec<_>>().join(":");
+    let mut pattern: String = names
+        .iter()
+        .zip(e.iter())
+        .enumerate()
+        .map(|(k, (n, x))| match force {
+            Some((fk, fnum)) if fk == k => format!("{n}{}", big_tag(fnum)),
+            _ => format!("{n}{}", ["0", "1", "m"][*x as usize]),
+        })
+        .collect::<Vec<_>>()
+        .join(":");
     pattern.push_str(if sky { ":sky1" } else { ":sky0" });
+    let n_of = |k: usize, r: &mut Rng| -> usize {
+        match force {
+            Some((fk, fnum)) if fk == k => fnum,
+            _ => n_of(e[k], r, many_max),
+        }
+    };
 
     let tpool = name_pool(r, ".blp");
-    let nt = n_of(e[0], r, many_max);
+    let nt = n_of(0, r);
     let textures: Vec<String> = (0..nt).map(|i| tpool[i % tpool.len()].clone()).collect();
     let toff = tex_offsets(&textures);
     let mut materials = Vec::new();
-    for _ in 0..n_of(e[1], r, many_max) {
+    for _ in 0..n_of(1, r) {
         let pick = |r: &mut Rng, alias: bool| -> (u32, Option<String>) {
             if textures.is_empty() {
                 return (0, None);
@@ -509,7 +534,7 @@ fn gen_root(r: &mut Rng, idx: u64, many_max: u64) -> RootSpec {
         });
     }
     let gpool = name_pool(r, "");
-    let ng = n_of(e[2], r, many_max);
+    let ng = n_of(2, r);
     let same = ng > 1 && r.chance(1, 4);
     let groups: Vec<GrpS> = (0..ng)
         .map(|i| {
@@ -522,20 +547,20 @@ fn gen_root(r: &mut Rng, idx: u64, many_max: u64) -> RootSpec {
         })
         .collect();
     let names_differ = groups.iter().any(|g| g.name != groups[0].name);
-    let portals: Vec<PortS> = (0..n_of(e[3], r, many_max))
+    let portals: Vec<PortS> = (0..n_of(3, r))
         .map(|_| {
             let nv = r.usize(6);
             PortS { verts: (0..nv).map(|_| v3any(r)).collect(), normal: v3any(r) }
         })
         .collect();
-    let prefs: Vec<[u16; 3]> = (0..n_of(e[4], r, many_max)).map(|_| [r.next_u32() as u16, r.next_u32() as u16, r.next_u32() as u16]).collect();
-    let vis: Vec<Vec<u16>> = (0..n_of(e[5], r, many_max))
+    let prefs: Vec<[u16; 3]> = (0..n_of(4, r)).map(|_| [r.next_u32() as u16, r.next_u32() as u16, r.next_u32() as u16]).collect();
+    let vis: Vec<Vec<u16>> = (0..n_of(5, r))
         .map(|_| {
             let k = r.usize(5);
             (0..k).map(|_| (r.next_u32() as u16).min(0xFFFE)).collect()
         })
         .collect();
-    let lights: Vec<LightS> = (0..n_of(e[6], r, many_max))
+    let lights: Vec<LightS> = (0..n_of(6, r))
         .map(|_| LightS {
             ty: r.below(4) as u8,
             pos: v3any(r),
@@ -547,7 +572,7 @@ fn gen_root(r: &mut Rng, idx: u64, many_max: u64) -> RootSpec {
             use_att: r.bool(),
         })
         .collect();
-    let nd = n_of(e[7], r, many_max);
+    let nd = n_of(7, r);
     let canon = canonical_doodad_offsets(nd);
     let want_free = r.bool();
     let ddefs: Vec<DdefS> = (0..nd)
@@ -562,7 +587,7 @@ fn gen_root(r: &mut Rng, idx: u64, many_max: u64) -> RootSpec {
         .collect();
     let doodad_free = ddefs.iter().zip(canon.iter()).any(|(d, c)| d.off != *c);
     let spool = name_pool(r, "");
-    let dsets: Vec<DsetS> = (0..n_of(e[8], r, many_max))
+    let dsets: Vec<DsetS> = (0..n_of(8, r))
         .map(|i| {
             let mut n: String = spool[i % spool.len()].replace('\\', "_");
             n.truncate(19);
@@ -595,11 +620,17 @@ fn gen_root(r: &mut Rng, idx: u64, many_max: u64) -> RootSpec {
     }
 }
 
+/// Lists in case descriptions: in full up to 64 elements, otherwise the first 12 and the length.
+fn cap<T: Into<Value>>(v: Vec<T>) -> Value {
+    let n = v.len();
+    if n <= 64 { Value::Array(v.into_iter().map(Into::into).collect()) } else { json!({"first": v.into_iter().take(12).map(Into::into).collect::<Vec<Value>>(), "len": n}) }
+}
+
 fn root_desc(s: &RootSpec) -> Value {
-    json!({"kind": "root", "pattern": s.pattern, "textures": s.textures, "group_names": s.groups.iter().map(|g| g.name.clone()).collect::<Vec<_>>(),
-        "materials": s.materials.len(), "material_tex_offsets": s.materials.iter().map(|m| [m.tex1, m.tex2]).collect::<Vec<_>>(),
-        "portals": s.portals.iter().map(|p| p.verts.len()).collect::<Vec<_>>(), "portal_refs": s.prefs.len(), "visible_lists": s.vis.iter().map(|l| l.len()).collect::<Vec<_>>(),
-        "lights": s.lights.len(), "doodad_name_offsets": s.ddefs.iter().map(|d| d.off).collect::<Vec<_>>(), "doodad_sets": s.dsets.iter().map(|d| d.name.clone()).collect::<Vec<_>>(),
+    json!({"kind": "root", "pattern": s.pattern, "textures": cap(s.textures.clone()), "group_names": cap(s.groups.iter().map(|g| g.name.clone()).collect::<Vec<_>>()),
+        "materials": s.materials.len(), "material_tex_offsets": cap(s.materials.iter().map(|m| json!([m.tex1, m.tex2])).collect::<Vec<_>>()),
+        "portals": cap(s.portals.iter().map(|p| p.verts.len()).collect::<Vec<_>>()), "portal_refs": s.prefs.len(), "visible_lists": cap(s.vis.iter().map(|l| l.len()).collect::<Vec<_>>()),
+        "lights": s.lights.len(), "doodad_name_offsets": cap(s.ddefs.iter().map(|d| d.off).collect::<Vec<_>>()), "doodad_sets": cap(s.dsets.iter().map(|d| d.name.clone()).collect::<Vec<_>>()),
         "skybox": s.skybox, "predicates": {"names_differ": s.names_differ, "bbox_free": s.bbox_free, "doodad_offsets_free": s.doodad_free}})
 }
 
@@ -1221,7 +1252,7 @@ struct GroupSpec {
     pattern: String,
 }
 
-fn gen_group(r: &mut Rng, idx: u64, many_max: u64) -> GroupSpec {
+fn gen_group(r: &mut Rng, idx: u64, many_max: u64, force: Option<(usize, usize)>) -> GroupSpec {
     let mut e = [0u64; 9];
     for x in e.iter_mut() {
         *x = match idx {
@@ -1232,16 +1263,34 @@ fn gen_group(r: &mut Rng, idx: u64, many_max: u64) -> GroupSpec {
         };
     }
     let names = ["vtx", "nrm", "tcs", "idx", "col", "bat", "bsp", "liq", "drf"];
-    let pattern: String = names.iter().zip(e.iter()).map(|(n, x)| format!("{n}{}", ["0", "1", "m"][*x as usize])).collect::<Vec<_>>().join(":");
-    let verts = (0..n_of(e[0], r, many_max)).map(|_| v3any(r)).collect();
-    let normals = (0..n_of(e[1], r, many_max)).map(|_| v3any(r)).collect();
-    let tcs = (0..n_of(e[2], r, many_max)).map(|_| [fany(r), fany(r)]).collect();
-    let indices = (0..n_of(e[3], r, many_max) * 3).map(|_| r.next_u32() as u16).collect();
+    if let Some((fk, _)) = force {
+        e[fk] = 2; // the forced list takes the "many" branch of the Option-valued lists
+    }
+    let pattern: String = names
+        .iter()
+        .zip(e.iter())
+        .enumerate()
+        .map(|(k, (n, x))| match force {
+            Some((fk, fnum)) if fk == k => format!("{n}{}", big_tag(fnum)),
+            _ => format!("{n}{}", ["0", "1", "m"][*x as usize]),
+        })
+        .collect::<Vec<_>>()
+        .join(":");
+    let n_of = |k: usize, r: &mut Rng| -> usize {
+        match force {
+            Some((fk, fnum)) if fk == k => fnum,
+            _ => n_of(e[k], r, many_max),
+        }
+    };
+    let verts = (0..n_of(0, r)).map(|_| v3any(r)).collect();
+    let normals = (0..n_of(1, r)).map(|_| v3any(r)).collect();
+    let tcs = (0..n_of(2, r)).map(|_| [fany(r), fany(r)]).collect();
+    let indices = (0..n_of(3, r) * 3).map(|_| r.next_u32() as u16).collect();
     let colors = match e[4] {
         0 => if r.bool() { None } else { Some(vec![]) },
-        k => Some((0..n_of(k, r, many_max)).map(|_| col_any(r)).collect()),
+        _ => Some((0..n_of(4, r)).map(|_| col_any(r)).collect()),
     };
-    let batches = (0..n_of(e[5], r, many_max))
+    let batches = (0..n_of(5, r))
         .map(|_| {
             let b = r.bytes(10);
             let mut flags = [0u8; 10];
@@ -1251,8 +1300,8 @@ fn gen_group(r: &mut Rng, idx: u64, many_max: u64) -> GroupSpec {
         .collect();
     let bsp = match e[6] {
         0 => if r.bool() { None } else { Some(vec![]) },
-        k => Some(
-            (0..n_of(k, r, many_max))
+        _ => Some(
+            (0..n_of(6, r))
                 .map(|_| BspS { axis: r.below(3) as u8, neg: r.bool(), dist: fany(r), ch: [r.next_u32() as i16, r.next_u32() as i16], first: r.next_u32() as u16, n: r.next_u32() as u16 })
                 .collect(),
         ),
@@ -1273,7 +1322,7 @@ fn gen_group(r: &mut Rng, idx: u64, many_max: u64) -> GroupSpec {
     };
     let drefs = match e[8] {
         0 => if r.bool() { None } else { Some(vec![]) },
-        k => Some((0..n_of(k, r, many_max)).map(|_| r.next_u32() as u16).collect()),
+        _ => Some((0..n_of(8, r)).map(|_| r.next_u32() as u16).collect()),
     };
     GroupSpec {
         name_off: r.next_u32(),
@@ -1750,13 +1799,40 @@ fn main() {
     let (mut root_samples, mut group_samples) = (0, 0);
     run.extra("versions", json!(VERS.iter().map(|v| v.1).collect::<Vec<_>>()));
     run.extra("conversion_pairs_per_object", json!(VERS.len() * VERS.len()));
-    for idx in 0..n_root + n_group {
+    // Boundary-size cases behind the regular index space: one list at a time is given a length at / just beyond / well beyond 4096
+    // elements (the length up to which the parsers pre-allocate; real city-sized objects have several thousand definitions, vertices, ...),
+    // the other lists stay random empty / one / many. (kind, list number, length); the liquid grid (group list 7) is not a flat list.
+    let mut big: Vec<(bool, usize, usize)> = Vec::new();
+    let mut brng = Rng::new(run.args.seed ^ 0xC15_B16);
+    for rep in 0..if thorough { 6 } else { 1 } {
+        for is_root in [true, false] {
+            for k in (0..9).filter(|&k| is_root || k != 7) {
+                let far = 4098 + brng.usize(1500);
+                for n in if rep == 0 { vec![4096, 4097, far] } else { vec![far] } {
+                    big.push((is_root, k, n));
+                }
+            }
+        }
+    }
+    run.extra("boundary_size_cases", json!(big.len()));
+    for idx in 0..n_root + n_group + big.len() as u64 {
         if !run.want(idx) {
             continue;
         }
         let mut rng = run.rng(idx, 0);
-        if idx < n_root {
-            let spec = gen_root(&mut rng, idx, many_max);
+        if idx >= n_root + n_group {
+            let (is_root, k, n) = big[(idx - n_root - n_group) as usize];
+            if is_root {
+                let spec = gen_root(&mut rng, idx, many_max, Some((k, n)));
+                let class = format!("root|{}|n{}b{}d{}", spec.pattern, spec.names_differ as u8, spec.bbox_free as u8, spec.doodad_free as u8);
+                run.case(idx, &class, root_desc(&spec), |c| check_root_case(c, &seed, &spec));
+            } else {
+                let spec = gen_group(&mut rng, idx, many_max, Some((k, n)));
+                let class = format!("group|{}", spec.pattern);
+                run.case(idx, &class, group_desc(&spec), |c| check_group_case(c, &spec));
+            }
+        } else if idx < n_root {
+            let spec = gen_root(&mut rng, idx, many_max, None);
             let class = format!("root|{}|n{}b{}d{}", spec.pattern, spec.names_differ as u8, spec.bbox_free as u8, spec.doodad_free as u8);
             let desc = root_desc(&spec);
             if root_samples < 2 {
@@ -1767,7 +1843,7 @@ fn main() {
             }
             run.case(idx, &class, desc, |c| check_root_case(c, &seed, &spec));
         } else {
-            let spec = gen_group(&mut rng, idx - n_root, many_max);
+            let spec = gen_group(&mut rng, idx - n_root, many_max, None);
             let class = format!("group|{}", spec.pattern);
             let desc = group_desc(&spec);
             if group_samples < 2 {
